@@ -151,9 +151,10 @@ class TileServer(Server):
             if result['authorized'] == 'none':
                 raise RequestError('forbidden', status=403)
             allowed_layers = odict()
-            for layer in self.layers.values():
+            # one entry for each tile set (grid) of a permitted layer
+            for key, layer in self.layers.items():
                 if result['layers'].get(layer.name, {}).get('tile', False) is True:
-                    allowed_layers[layer.name] = layer
+                    allowed_layers[key] = layer
             return allowed_layers
         else:
             return self.layers
